@@ -25,7 +25,7 @@ META = {
     'bounds': {'quick': {'wavelets': WAVES_Q, 'modes': D.MODES, '1-D N': 'L+1, 2L, 2L+1 and one long size (interior elements) per (wavelet, J)', '2-D': '(6,6),(5,8),(9,7) + one 12x12',
                          'J': '1,2 (3 on two configs)', 'grad subsets (inverse)': 'all non-empty subsets of (yl, yh_1..yh_J) for J<=2'},
                'thorough': {'wavelets': WAVES_Q + ['db4', 'db6', 'coif1', 'rbio1.3', 'bior1.5'], '1-D N': '4..2L+2', 'J': '1..3', 'subsets': 'all for J<=3'}},
-    'outside': 'sizes beyond the lists; periodization configurations in which a level is shorter than its filter (known defect F1); float rounding; second-order gradients; the autograd engine itself is modelled (tape at Function granularity), not executed '
+    'outside': 'sizes beyond the lists; float rounding; second-order gradients; the autograd engine itself is modelled (tape at Function granularity), not executed '
                '- the model is cross-checked against real torch.autograd on every configuration',
     'assumptions': ['real-arithmetic semantics', 'tape model of torch.autograd (validated per configuration against real autograd at a random cotangent)'],
 }
@@ -71,7 +71,6 @@ def configs(tier, seed):
         L = D.filt_len(c['wave'])
         dims = [c['N']] if c['dim'] == 1 else [c['H'], c['W']]
         return c['mode'] == 'periodization' and any(D.per_short(n, L, c['J']) for n in dims)
-    out = [c for c in out if not _ps(c)]     # region of the known periodization defect F1 (decided under C01/C02/C10)
     for c in [dict(dim=1, wave='db2', mode='zero', J=3, N=19, dir='fwd', sub=None), dict(dim=1, wave='db2', mode='periodization', J=3, N=24, dir='fwd', sub=None)]:
         out.append(c)
     # None levels in the inverse
